@@ -183,6 +183,20 @@ func (w *c03Worker) judge(q c03Req) (clause, detail string, resp harness.Resp, r
 		return "", "", resp, false
 	}
 	defer func() {
+		// The sandbox of a worker is touched by nobody but the handler this worker drives. When it cannot be
+		// put back (entries vanish or appear while it is being rebuilt) another handler instance - serving
+		// another directory - has reached into it: the library touched something outside ITS served directory.
+		defer func() {
+			if p := recover(); p != nil {
+				if clause == "" {
+					clause, detail = "outside-modified", fmt.Sprintf("the sandbox of this worker was changed from outside while it was being restored (another root's handler reached into it): %v", p)
+				}
+				func() {
+					defer func() { recover() }()
+					w.build(w.start)
+				}()
+			}
+		}()
 		if _, st := harness.Snapshot(w.served); st != w.stamp {
 			w.restore()
 		}
@@ -435,10 +449,11 @@ func c03ExploreSpell(r *engine.Run, strs []string, spell int, visit func(v *fsVi
 func init() {
 	register("C03", func(r *engine.Run) {
 		quick := !thorough(r)
-		r.Rule = "every string of 1..L tokens over 18 traversal tokens (L=3 full + L=4 on 6 tokens quick; L=4 full + L=5 on 6 tokens thorough) used as URL.Path verbatim, as raw request-target (when net/http parses it), and as Destination header (bare, http://h-prefixed, //h-prefixed) x every method x 3 start trees (empty, tree with look-alike encoded names, tree produced by a real MKCOL/PUT/MOVE history); non-trivial = the string contains a traversal feature (dot-dot, percent-encoding, backslash, NUL, double slash, URL metacharacter, relative); distinct by (start tree, string, request form)"
+		r.Rule = "every string of 1..L tokens over 18 traversal tokens (L=3 full + L=4 on 6 tokens quick; L=4 full + L=5 on 6 tokens thorough) used as URL.Path verbatim, as raw request-target (when net/http parses it), and as Destination header (bare, http://h-prefixed, //h-prefixed) x every method x 3 start trees (empty, tree with look-alike encoded names, tree produced by a real MKCOL/PUT/MOVE history); non-trivial = the string contains a traversal feature (dot-dot, percent-encoding, backslash, NUL, double slash, URL metacharacter, relative); distinct by (start tree, string, request form); plus, before anything else is served in the process, every ordered pair of a 20-request alphabet on two handlers over two different directories (first on A, then on B)"
 		r.Explanation = "explicit-state exploration over hostile paths with a model-free oracle: a byte-exact snapshot (content, entry list, modes, mtimes) of everything in the sandbox outside the served directory must be unchanged after every request, no canary token may appear in a response, every multistatus href must clean to a served resource of the same kind and be addressable again, and unmappable paths must be refused 4xx"
 		r.Assumptions = []string{"the mapping path -> file name is stateless, so three start trees suffice (stated assumption)", "symlinks placed inside the served directory are outside the statement"}
 		defer harness.Cleanup()
+		c03TwoRoots(r)
 		c03Explore(r, quick, nil)
 	})
 	registerReplay("C03", func(raw json.RawMessage) (bool, string) {
